@@ -284,6 +284,29 @@ def run(ctx):
                         break
             except (ClaripyZeroDivisionError, E.Unsupported):
                 pass
+        # ---- replace (constant key): a literal is a sub-expression like any other
+        lits = [s for s in a.children_asts() if s.op == "BVV" and isinstance(s, claripy.ast.BV)]
+        if lits and a.symbolic and rng.random() < 0.4:
+            s0 = rng.choice(lits)
+            fresh = claripy.BVS("freshc", s0.length, explicit_name=True)
+            ctx.count()
+            try:
+                r = claripy.replace(a, s0, fresh) if rng.random() < 0.5 else claripy.replace_dict(a, {s0.hash(): fresh})
+                rt = E.from_ast(r)
+                still = any(x is s0 for x in r.children_asts()) or r is s0
+                if still and "freshc" not in r.variables:
+                    viol("C08/replace/constant-key-not-replaced", "replace(%s, %s, fresh) = %s: the literal still occurs and the new variable does not" % (
+                        E.sexpr(at), E.sexpr(E.from_ast(s0)), E.sexpr(rt)), {"tree": at, "old": E.from_ast(s0)})
+                else:
+                    for env in envs_for([at], rng, n=16):
+                        env2 = dict(env)
+                        env2["freshc"] = s0.args[0]
+                        if E.ev(rt, env2) != E.ev(at, env):
+                            viol("C08/replace/constant-key-not-substitution", "replace(%s, %s, fresh) = %s differs at %s" % (
+                                E.sexpr(at), E.sexpr(E.from_ast(s0)), E.sexpr(rt), env), {"tree": at, "old": E.from_ast(s0), "env": env})
+                            break
+            except (ClaripyZeroDivisionError, E.Unsupported):
+                pass
         # ---- canonicalize / identical
         ctx.count()
         try:
